@@ -13,19 +13,19 @@ EXTENDS Naturals, Sequences, FiniteSets, TLC, FiniteSetsExt, Functions
 
 CONSTANT Tier
 
-Flows == {"authorize", "authorizeHint", "callbackCode", "callbackImplicit", "callbackIDToken", "callbackFormPost", "codeExchange", "codeExchangeJWT", "codeExchangePKJWT",
+Flows == {"authorize", "authorizeHint", "authorizeUnregistered", "callbackCode", "callbackImplicit", "callbackIDToken", "callbackFormPost", "codeExchange", "codeExchangeJWT", "codeExchangePKJWT",
           "refresh", "refreshJWT", "clientCreds", "jwtBearer", "exchangeAccess", "exchangeRefresh", "exchangeID", "exchangeActor",
           "deviceAuthorize", "pollApproved", "pollPending", "userinfoOpaque", "userinfoJWT", "introspectOpaque", "introspectJWT",
           "revokeOpaque", "revokeJWT", "revokeRefresh", "endSession", "endSessionNoHint"}
 MaxK == IF Tier = "quick" THEN 12 ELSE 16
-Kinds == {"error", "deadline", "oidc"}
+Kinds == {"error", "deadline", "oidc", "dupcode"}
 
 Groups == Flows
 CasesOf(f) == {[flow |-> f, router |-> r, k |-> k, fkind |-> fk] : r \in {"P", "L"}, k \in 1..MaxK, fk \in Kinds}
 
 \* answers that count as "an error" for the flow: an OAuth error document / error page (status >= 400),
 \* an error redirect to the already validated redirect URI, an inactive introspection
-IsAuthFlow(f) == f \in {"authorize", "authorizeHint", "callbackCode", "callbackImplicit", "callbackIDToken", "callbackFormPost"}
+IsAuthFlow(f) == f \in {"authorize", "authorizeHint", "authorizeUnregistered", "callbackCode", "callbackImplicit", "callbackIDToken", "callbackFormPost"}
 ErrorAnswer(c, o) ==
   \/ o.class \in {"json", "page"} /\ o.status >= 400
   \/ o.class = "redirErr" /\ IsAuthFlow(c.flow) /\ o.sameTarget
